@@ -182,6 +182,8 @@ def check(run: Run) -> None:
         # lists this rule reads the binding order from
         if kv_ is not None and kv_[0] == "comp" and kv_[2][0] == "attr" and kv_[2][1][0] == "elem" and contains(kv_[3][0][0] if kv_[3] else ("top",), lambda q: q[0] == "new" and isinstance(q[1], str) and ":" in q[1]):
             raise AnalysisError("convert_call_to_dict keeps the dictionary's entries as a list of record objects and projects keys and values out of it: the order in which fields are bound cannot be read from that shape")
+    if keys is not None and values is not None and keys[0] == "comp" and values[0] == "comp" and len(keys[3]) == 1 and len(values[3]) == 1 and keys[3][0][0] == values[3][0][0] and contains(keys[2], lambda q: q == ("index", ("elem", keys[3][0][0]), 0)) and values[2] == ("index", ("elem", values[3][0][0]), 1):
+        raise AnalysisError("convert_call_to_dict keeps the dictionary's entries as one list of (name, value) pairs and projects keys and values out of it: the order in which fields are bound cannot be read from that shape")
     n_pos = ("app", ("global", "builtins.len"), (("attr", ap, "args"),), ())
     # values: a *copy* of the positional arguments, then the keyword values of the remaining names, in that order
     fresh_args = ("app", ("global", "builtins.list"), (("attr", ap, "args"),), ())
@@ -208,6 +210,11 @@ def check(run: Run) -> None:
         ok_keys = ok_keys and ok_e
     run.check(ok_vals and ok_keys, "C06.R4", cd, cd.node, "positional values bind to sig_arg_names[:len(args)] in order", f"convert_call_to_dict returns {show(rt)[:200]}: positional arguments are not bound to the first len(args) field names in order", term=show(rt))
     # keywords by name among the remaining names
+    from ..lib import view as _view_cd
+
+    cd_orig, fc_orig = cd, fc
+    cd = _view_cd(m, cd)  # the binding loop may sit in a helper: read it where it runs
+    fc = ctx.analysis(cd) if cd is not cd_orig else fc
     loops = [n for n in own_nodes(cd) if isinstance(n, ast.For)]
     rem = [lp for lp in loops if _len_norm(_seq_norm(strip_sites(fc.term_of(lp.iter, fc.cfg.node_of(lp))))) == ("slice", sigp, n_pos, None)]
     ok_kw = False
@@ -227,6 +234,7 @@ def check(run: Run) -> None:
     lookups = [n for n in own_nodes(cd) if isinstance(n, ast.DictComp)]
     ok_l = len(lookups) == 1 and ast.unparse(lookups[0].key).endswith(".arg") and ast.unparse(lookups[0].value).endswith(".value") and strip_sites(fc.term_of(lookups[0].generators[0].iter, fc.cfg.node_of(lookups[0]))) == ("attr", ap, "keywords")
     run.check(ok_l, "C06.R4", cd, lookups[0] if lookups else cd.node, "keyword table is {kw.arg: kw.value} of the call's keywords", "the keyword lookup is not built from the call's own keywords")
+    cd, fc = cd_orig, fc_orig
     k2 = set()
     for g_ in unit(m, cd, depth=1):
         bind_ = None
